@@ -34,7 +34,8 @@ BOUNDS = {
     "registrations under ONE frame name (4 orbits x 3 orientations, with / without a registry reset in between: 264 histories), plus references given as "
     "{StateVector, Kepler Orbit} x forms {cartesian, keplerian, spherical, keplerian_mean} x frames {EME2000, TEME} x 3 orientations on 3 states (6 in thorough); dkep2dv: 4 orbits x 245 increments "
     "(+ 5 positions for pure da); KeplerNum: {euler, rk4, dopri54} x 60 s x 24 steps, 3 date kinds x 3 tags x 4 vectors single impulses, all ordered pairs and "
-    "a set of triples of a 6-maneuver alphabet; continuous burns: 5 windows x 3 tags x 3 methods",
+    "a set of triples of a 6-maneuver alphabet; continuous burns: 5 windows x 3 tags x 3 methods; "
+    "the same maneuver object (4 classes) used 2-3 times on two orbits in every order, through a propagation and through dv()/accel(), vs a fresh object",
     "thorough": "as quick with steps {15, 60, 120} s, rkf54 added, all ordered triples of the 6-maneuver alphabet, orbit2frame on all 72 states and all registration pairs and triples under one name (6 072 histories), dkep2dv on 6 orbits",
 }
 ASSUMPTIONS = [
@@ -49,7 +50,8 @@ ASSUMPTIONS = [
     "continuous burns: the reference switches the thrust on the stage dates t + c h exactly like the definition start <= t < stop",
 ]
 NOT_COVERED = (
-    "velocity convention of local orbital frames (no rotation-rate term is specified by the property), KeplerianContinuousMan, maneuvers during backward "
+    "velocity convention of local orbital frames (no rotation-rate term is specified by the property), the accuracy of KeplerianContinuousMan (only its "
+    "independence from earlier uses is checked), maneuvers during backward "
     "propagation, states interpolated across an impulse (off-grid output inside the 8-point stencil of a maneuver), ClohessyWiltshire maneuvers (C16)"
 )
 
@@ -748,6 +750,88 @@ def check_burn(case, t):
 
 
 # ---------------------------------------------------------------------------
+# part MH : one maneuver OBJECT used more than once (other orbit, other order); oracle = a brand-new object with the same arguments
+
+MH_ORBITS = {"A": (7.2e6, 0.02, 0.9, 0.3, 0.2, 0.5), "B": (4.2164e7, 0.1, 0.3, 1.0, 2.0, 4.0)}
+MH_CLASSES = ["ImpulsiveMan", "KeplerianImpulsiveMan", "ContinuousMan", "KeplerianContinuousMan"]
+
+
+def _new_man(cls, h_us):
+    from datetime import timedelta
+    from beyond.orbits import man as M
+
+    if cls == "ImpulsiveMan":
+        return M.ImpulsiveMan(at(4 * h_us + h_us // 2), [0.8, -0.3, 0.5], frame="TNW")
+    if cls == "KeplerianImpulsiveMan":
+        return M.KeplerianImpulsiveMan(at(4 * h_us + h_us // 2), da=50e3, di=1e-3, dOmega=-2e-3)
+    if cls == "ContinuousMan":
+        return M.ContinuousMan(at(3 * h_us), timedelta(microseconds=4 * h_us), dv=[0.6, 0.2, -0.4], frame="QSW")
+    if cls == "KeplerianContinuousMan":
+        return M.KeplerianContinuousMan(at(3 * h_us), timedelta(microseconds=4 * h_us), da=50e3, di=1e-3)
+    raise ValueError(cls)
+
+
+def _public(man):
+    out = {}
+    for k, v in sorted(vars(man).items()):
+        if k.startswith("_"):
+            continue
+        if hasattr(v, "_d") and hasattr(v, "_s"):
+            out[k] = ("date", v._d, v._s)
+        elif isinstance(v, np.ndarray):
+            out[k] = np.asarray(v, dtype=float).tobytes().hex()
+        else:
+            out[k] = repr(v)
+    return out
+
+
+def _use(man, oname, kind, h_us):
+    """One use of a maneuver object on orbit `oname`: a KeplerNum propagation through it, or a direct dv()/accel() call."""
+    from mc.ref import twobody
+
+    y0 = twobody.kep_to_cart(*MH_ORBITS[oname], _G["mu"])
+    orb, _ = make_num("rk4", h_us, [man], y0=y0)
+    if kind == "propagation":
+        return A(list(orb.iter(stop=at(12 * h_us)))[-1])
+    o = orb.copy()
+    o.date = at(4 * h_us + h_us // 2)
+    return A(man.dv(o)) if hasattr(man, "dv") else A(man.accel(o))
+
+
+def check_man_reuse(case, t):
+    cls, order, kind = case["cls"], case["order"], case["kind"]
+    h_us = 60_000_000
+    key = ("MH", cls, tuple(order), kind)
+    t.ev(key)
+    t.state(key)
+    shared = _new_man(cls, h_us)
+    pub0 = _public(shared)
+    for k, oname in enumerate(order):
+        try:
+            got = _use(shared, oname, kind, h_us)
+            want = _use(_new_man(cls, h_us), oname, kind, h_us)
+            t.trans(2)
+        except LIBERR as e:
+            t.fail(f"man/{cls}/reused-object/raises-{type(e).__name__}", "a maneuver object can be used in more than one propagation", case, "result", repr(e)[:200])
+            return
+        t.outcome(("MH", cls, kind, k))
+        if not np.array_equal(got, want):
+            d = float(np.linalg.norm(got[:3] - want[:3]))
+            t.fail(f"man/{cls}/reused-object/differs-from-fresh-object",
+                   "the effect of a maneuver is a function of its definition and of the orbit it is applied to, not of earlier uses of the object", case,
+                   [float(x) for x in want], [float(x) for x in got],
+                   f"{cls} used on orbits {order[:k+1]} ({kind}): use {k+1} differs from a fresh maneuver object by {d:.4e} (first three components)")
+            return
+        t.margin("MH: re-used maneuver object vs fresh object (bit-identical expected) / 1e-12", float(np.max(np.abs(got - want))), 1e-12)
+        pub = _public(shared)
+        if pub != pub0:
+            changed = sorted(k2 for k2 in set(pub) | set(pub0) if pub.get(k2) != pub0.get(k2))
+            t.fail(f"man/{cls}/public-attributes-changed-by-use", "using a maneuver does not change its definition", case, {k2: pub0.get(k2) for k2 in changed},
+                   {k2: pub.get(k2) for k2 in changed}, f"{cls} after use {k+1} on {order[:k+1]}: {changed}")
+            return
+
+
+# ---------------------------------------------------------------------------
 # units
 
 
@@ -783,6 +867,9 @@ def units(tier, seed):
         kc = [dict(part="K", orbit=oname, da=da, di=di, dO=dO) for da in DA for di in DANG for dO in DANG]
         for i in range(0, len(kc), 62):
             u.append((cfg, dict(part="K", cases=kc[i : i + 62])))
+    mh = [dict(part="MH", cls=c, order=list(o), kind=k) for c in MH_CLASSES for o in (("A", "B"), ("B", "A"), ("A", "A"), ("B", "B"), ("A", "B", "A"))
+          for k in ("propagation", "direct-call")]
+    u.append((cfg, dict(part="MH", cases=mh)))
     methods = ["euler", "rk4", "dopri54"] + (["rkf54"] if tier == "thorough" else [])
     hs = [60] if tier == "quick" else [15, 60, 120]
     names = list(MAN_ALPHABET)
@@ -829,6 +916,8 @@ def check_case(case, t):
         check_frame_history(case, t)
     elif part == "FR":
         check_frame_reference(case, t)
+    elif part == "MH":
+        check_man_reuse(case, t)
     elif part == "K":
         check_dkep(case, t)
     elif part == "N":
